@@ -285,7 +285,11 @@ impl<T: UciTx, H: Heuristic, M: MoveOrder> Search<T, H, M> {
 
         self.state.metrics.increment_duration(&self.state.elapsed());
 
-        (best_move.and_then(|vm| vm.mv).map(move_into_uci_move), self.state.ponder_move().map(move_into_uci_move))
+        let best_move = best_move.and_then(|vm| vm.mv).map(move_into_uci_move);
+        // Without a move from this search the stored principal variation still belongs to an earlier search
+        let ponder_move = if best_move.is_some() { self.state.ponder_move().map(move_into_uci_move) } else { None };
+
+        (best_move, ponder_move)
     }
 
     fn evaluate(&self, color: ColorBits, zobrist_pawn_hash: ZobristHash, legal_moves_remaining: bool) -> i32 {
